@@ -11,6 +11,7 @@ import Driver.Mpd
 import Driver.Fault
 import Driver.Cfg
 import Driver.Keys
+import Driver.Load
 /-! Line-protocol driver: one operation per input line, one canonical result per output line. -/
 open Drv
 
@@ -146,6 +147,7 @@ def step (st : DState2) (line : String) : DState2 × String :=
   | "mpddef" :: args => defMpd st args
   | "mpd" :: args => (st, opMpd st args)
   | "cfg" :: args => (st, opCfg args)
+  | "cons" :: args => (st, opCons args)
   | "req" :: args => (st, opReq args)
   | "kid" :: args => (st, opKeys "kid" args)
   | "k2k" :: args => (st, opKeys "k2k" args)
